@@ -18,7 +18,7 @@ OPS29 = [
     "sl_1_4", "sl_s2", "sl_rev", "ix_1", "ix_none", "sl2_a", "tk_201", "add1", "add_row", "add_0d", "where_gt", "as_f4", "T", "rs_m1", "rs_2_m1", "exp0", "squeeze", "flip0", "roll1",
     "cat_parts", "cat_self", "stack0", "bcast", "pad1", "tile2", "rc2", "rc_all", "rc_bal", "sum0", "mean_se2", "argmax0", "topk2", "var_dd1", "cumsum0", "cumsumm1_bl",
     "swv2", "swv2_sum", "swv3_max", "diff", "ovl_reflect", "ovl_periodic", "bn_move_sum3", "mb_double", "mb_demean", "mb_demean_chunks",
-    "mb_touch", "mb_touch_nodtype", "mo_touch", "mo_touch_nodtype", "bw_touch", "red_touch", "outer_sincos", "tdot", "isin", "set_sl", "set_mask", "add_where_out",
+    "mb_touch", "mb_touch_nodtype", "mo_touch", "mo_touch_nodtype", "bw_touch", "red_touch", "outer_sincos", "tdot", "isin", "set_sl", "set_mask", "set_daskval", "set_daskval_mb", "add_where_out",
     "b_add", "b_cat",
 ]
 
@@ -89,6 +89,8 @@ def plan(tier, seed):
     for shape, chunks in layouts:
         for kw in ({}, {"inline_array": True}, {"lock": True}, {"fancy": False}, {"asarray": False}) if tier != "quick" else ({}, {"inline_array": True, "lock": True}):
             srcs.append(dict(E.src(shape, chunks), recsource=True, from_array_kwargs=kw))
+    # integer sources too: assignment into integer arrays validates the value
+    srcs += [dict(E.src(shape, chunks, "i8"), recsource=True, from_array_kwargs={}) for shape, chunks in layouts[:2]]
     ops = OPS.subset(names=OPS29)
     shards = E.plan_shards(srcs, ops, 2)
     return {
